@@ -22,7 +22,11 @@
    flush when ValueSize >= IdealBatchSize, one final Write); a crash leaves disk + a prefix. *)
 From stdpp Require Import gmap.
 
-Notation hash := N (only parsing).
+(* A hash is any countable type: small numbers in the correspondence run (Harness.v), 32-byte strings
+   in the concrete layer (Concrete.v). *)
+Section model.
+Context {K : Type} `{!EqDecision K, !Countable K}.
+Notation hash := K (only parsing).
 Notation nodes := (gmap hash (list hash)) (only parsing).
 
 Record dnode := DNode { tracked : list hash; refs : list hash }.
@@ -215,3 +219,4 @@ Definition step (s : store) (o : op) : store :=
   end.
 Fixpoint hist_ok (s : store) (ops : list op) : Prop :=
   match ops with [] => True | o :: tl => op_ok s o ∧ hist_ok (step s o) tl end.
+End model.
